@@ -104,7 +104,8 @@ impl Sanitizer {
         }
 
         if let Some(max_len) = self.max_length {
-            result.truncate(max_len);
+            // max_length counts characters; String::truncate panics inside a multi-byte char
+            result = result.chars().take(max_len).collect();
         }
 
         if let Some(sep) = &self.separator {
